@@ -1,7 +1,7 @@
 (* IpProofs6Print.v - C19: the text produced by the model of lrtr_ipv6_addr_to_str is one
    of the RFC 4291 forms and denotes the address that was printed; its length.          *)
 From Coq Require Import NArith ZArith List Bool Lia.
-From RtrV Require Import Ip.Ipv4Text Ip.Ipv6Text Ip.Grammar Ip.IpProofs4 Ip.IpProofs6Parse Ip.IpProofs6Accept.
+From RtrV Require Import Ip.Ipv4Text Ip.Ipv6Text Ip.Grammar Ip.IpProofs4 Ip.IpProofsG Ip.IpProofs6Parse Ip.IpProofs6Accept.
 Import ListNotations.
 Local Open Scope Z_scope.
 
@@ -274,3 +274,18 @@ Example to6_nonvacuous :
   ipv6_text [0; 0; 0; 0; 0; 65535; 49152; 640]%N =
     Some [58; 58; 102; 102; 102; 102; 58; 49; 57; 50; 46; 48; 46; 50; 46; 49; 50; 56]%N.
 Proof. vm_compute. split; reflexivity. Qed.
+
+(* non-vacuity of the grammar hypotheses: concrete texts of each form are in the relation, are
+   accepted with the value denoted, and a text with "::" satisfies the hypothesis of
+   deterministic_with_dcolon *)
+Example grammar_nonvacuous :
+  denotes6 [58; 58; 102; 102; 102; 102; 58; 49; 46; 50; 46; 51; 46; 52]%N [0; 0; 0; 0; 0; 65535; 258; 772]%N /\
+  denotes6 [49; 58; 50; 58; 51; 58; 52; 58; 53; 58; 54; 58; 55; 58; 56]%N [1; 2; 3; 4; 5; 6; 7; 8]%N /\
+  denotes6 [65; 98; 58; 58; 48; 48; 49]%N [171; 0; 0; 0; 0; 0; 0; 1]%N /\
+  denotes4 [49; 46; 50; 46; 51; 46; 52]%N 16909060%N /\
+  str_to_ip [65; 98; 58; 58; 48; 48; 49]%N = IV6 (map Some [171; 0; 0; 0; 0; 0; 0; 1]%N) /\
+  find_dcolon [65; 98; 58; 58; 48; 48; 49]%N <> None.
+Proof.
+  repeat split; try (apply ref_pton6_sound; vm_compute; reflexivity);
+    try (apply ref_pton4_sound; vm_compute; reflexivity); vm_compute; congruence.
+Qed.
